@@ -27,6 +27,15 @@ impl Driven for D {
          _ => panic!("verif harness: unknown relation {}", rel),
       }
    }
+   fn clear(&mut self, rel: &str) {
+      match rel {
+         "a" => { self.0.a = Default::default(); },
+         "e" => { self.0.e = Default::default(); },
+         "m" => { self.0.m = Default::default(); },
+         "cnt" => { self.0.cnt = Default::default(); },
+         _ => panic!("verif harness: unknown relation {}", rel),
+      }
+   }
    fn run(&mut self) { self.0.run(); }
    fn dump(&self) -> Value {
       let mut m: Vec<(String, Value)> = vec![];
